@@ -22,6 +22,8 @@ impl<'a> Parser<'a> {
         &mut self,
         len: usize,
     ) -> Result<<IT as BitValue>::ValueType, RtcmError> {
+        #[cfg(rtcm_rs_verif)]
+        crate::verif::trace_record(crate::verif::TRACE_PARSE, self.offset, len);
         if self.data.len() * 8 < self.offset + len {
             Err(RtcmError::BufferOverflow)
         } else {
@@ -65,6 +67,8 @@ impl<'a> Parser<'a> {
     }
     #[allow(unused)]
     pub fn consume_bits(&mut self, len: usize) {
+        #[cfg(rtcm_rs_verif)]
+        crate::verif::trace_record(crate::verif::TRACE_CONSUME, self.offset, len);
         self.offset += len;
     }
 }
